@@ -317,6 +317,12 @@ int32 dtlsWriteCertificateRequest(psPool_t *pool, ssl_t *ssl, int32 certLen,
         *tmp = (certLen + (certCount * 2)) & 0xFF; tmp++;
         while (cert)
         {
+            if (cert->parseStatus != PS_X509_PARSE_SUCCESS)
+            {
+                /* Not counted in certLen/certCount either */
+                cert = cert->next;
+                continue;
+            }
             *tmp = (cert->subject.dnencLen & 0xFF00) >> 8; tmp++;
             *tmp = cert->subject.dnencLen & 0xFF; tmp++;
             Memcpy(tmp, cert->subject.dnenc, cert->subject.dnencLen);
